@@ -91,6 +91,43 @@ theorem ingress_records_bounded (p : RawPeer) (h : fixedSize ⟨p.idLen, [], p.c
 theorem at_most_2K_enter_lookup {α : Type} (K : Nat) (peers : List α) : (capCloser K peers).length ≤ 2 * K := by
   simp [capCloser, List.length_take]; omega
 
+/-- Whatever the method and the response, a successful call hands over one sanitised entry per peer record
+    of the response, in order: nothing is invented, multiplied or taken from another field (closer peers
+    come from `closer`, providers from `provs`, and only GetProviders returns providers). -/
+theorem call_peers_from_response (b : Bool) (m : Method) (r : Resp) (hr : Bool) (c p : List (List Nat))
+    (h : call b m r = .ok hr c p) :
+    (c = [] ∨ c = r.closer.map sanitize) ∧ (p = [] ∨ (m = .getProviders ∧ p = r.provs.map sanitize)) := by
+  cases m <;> simp only [call, putValue, getValue, getClosestPeers, getProviders, ping] at h
+  · cases hrec : r.record with
+    | none => rw [hrec] at h; cases b <;> simp at h
+    | some kv =>
+      obtain ⟨_, v⟩ := kv; rw [hrec] at h
+      cases v <;> simp at h
+      obtain ⟨_, rfl, rfl⟩ := h; exact ⟨Or.inl rfl, Or.inl rfl⟩
+  · cases hrec : r.record with
+    | none => rw [hrec] at h; simp at h; obtain ⟨_, rfl, rfl⟩ := h; exact ⟨Or.inr rfl, Or.inl rfl⟩
+    | some kv =>
+      obtain ⟨k, _⟩ := kv; rw [hrec] at h
+      cases k <;> simp at h
+      obtain ⟨_, rfl, rfl⟩ := h; exact ⟨Or.inr rfl, Or.inl rfl⟩
+  · simp at h; obtain ⟨_, rfl, rfl⟩ := h; exact ⟨Or.inr rfl, Or.inl rfl⟩
+  · simp at h; obtain ⟨_, rfl, rfl⟩ := h; exact ⟨Or.inr rfl, Or.inr ⟨rfl, rfl⟩⟩
+  · split at h <;> simp at h
+    obtain ⟨_, rfl, rfl⟩ := h; exact ⟨Or.inl rfl, Or.inl rfl⟩
+
+/-- so the number of peers a response can feed to its caller is bounded by the response itself -/
+theorem call_peer_count_bounded (b : Bool) (m : Method) (r : Resp) (hr : Bool) (c p : List (List Nat))
+    (h : call b m r = .ok hr c p) : c.length ≤ r.closer.length ∧ p.length ≤ r.provs.length := by
+  obtain ⟨hc, hp⟩ := call_peers_from_response b m r hr c p h
+  constructor
+  · rcases hc with rfl | rfl <;> simp
+  · rcases hp with rfl | ⟨_, rfl⟩ <;> simp
+
+/-- the 2K cap keeps the first peers of the response, in order; a short list passes unchanged -/
+theorem capCloser_prefix {α : Type} (K : Nat) (peers : List α) :
+    capCloser K peers <+: peers ∧ (peers.length ≤ 2 * K → capCloser K peers = peers) :=
+  ⟨List.take_prefix _ _, fun h => List.take_of_length_le h⟩
+
 /-! non-vacuity -/
 example : getValue { type := 1, record := some (true, false), closer := [⟨38, 1, [(8, true), (20, false)]⟩], provs := [] }
     = .ok true [[8]] [] := by decide
